@@ -51,6 +51,20 @@ class OtherErr(Exception):
     pass
 
 
+class BadStrErr(OtherErr):
+    """An ordinary failure whose str() itself raises (templated messages with a missing field do):
+    recording it must not depend on being able to print it.  For the model it is an OtherErr."""
+
+    def __init__(self, msg):
+        super().__init__(msg)
+        self.verif_msg = msg
+
+    def __str__(self):
+        raise KeyError('message template field missing')
+
+    __repr__ = object.__repr__
+
+
 class TLock:
     """threading.Lock that reports a self-deadlock instead of hanging."""
 
@@ -213,7 +227,7 @@ class Impl:
 
     # ---- values
     def mk_exc(self, k, i):
-        cls = {'c': self.ex.CancelledError, 'f': self.ex.FatalError, 'o': OtherErr}[k]
+        cls = {'c': self.ex.CancelledError, 'f': self.ex.FatalError, 'o': OtherErr, 'b': BadStrErr}[k]
         return cls(msg_of(i))
 
     def canon(self, e):
@@ -221,8 +235,8 @@ class Impl:
             return '-'
         t = type(e)
         k = 'c' if t is self.ex.CancelledError else 'f' if t is self.ex.FatalError else \
-            'o' if t is OtherErr else '?' + t.__name__ + ':'
-        m = str(e)
+            'o' if t in (OtherErr, BadStrErr) else '?' + t.__name__ + ':'
+        m = e.verif_msg if t is BadStrErr else str(e)
         if m == '':
             return k + '0'
         if m.startswith('m'):
@@ -441,6 +455,8 @@ class Impl:
         except WouldBlock:
             out = 'CBBLOCKED'
             hung_in = self.in_cb
+        except Exception as e:      # noqa: an exception the operation does not document is its outcome
+            out = 'EXC:' + type(e).__name__
         post_done, post_status, post_exc = c.done(), c.status, c.exception
         res_obs = self.observe_result()
         obs = '%s/%s,%s,%s,%s,%s,%s,%s,%s,%s' % (
@@ -486,6 +502,8 @@ class Impl:
 
 def model_tok(tok):
     """The model's op for an implementation op (only 'cancel:x:m' differs: see do_call)."""
+    if tok.startswith(('se:b:', 'sx:b:')):
+        return tok[:3] + 'o' + tok[4:]         # an exception whose str() raises is an ordinary failure
     return 'status' if tok.startswith('cancel:x:') else tok
 
 
@@ -584,7 +602,7 @@ ENV_CORE = 'cb1=sx:o:2,cancel:c:0,result'
 ENV_PLAIN = ''
 ENV_SCRIPTS = 'cb1=sx:o:2,done cb2=cancel:c:0,result,status cl1=cancel:c:0,done'
 
-RANDOM_OPS = ALPHABET + ['cancel:x:1', 'cancel:x:1', 'sr:8', 'se:f:2:1', 'se:c:1:0', 'ccs:c:0', 'ccs:f:1', 'cancel:o:2', 'ph1', 'ph2', 'ph3',
+RANDOM_OPS = ALPHABET + ['cancel:x:1', 'cancel:x:1', 'se:b:1:0', 'se:b:2:1', 'se:b:1:0', 'sr:8', 'se:f:2:1', 'se:c:1:0', 'ccs:c:0', 'ccs:f:1', 'cancel:o:2', 'ph1', 'ph2', 'ph3',
                          'adc:3', 'afc:2', 'afc:3', 'exc', 'done', 'status', 'result', 'sx:c:1', 'sx:o:1',
                          'ann', 'ann', 'q', 'r']
 RANDOM_CALLS = ['done', 'status', 'result', 'sx:o:1', 'sx:o:2', 'sx:f:1', 'cancel:c:0', 'cancel:c:0', 'cancel:f:2']
